@@ -30,6 +30,9 @@ ASSUMPTIONS = [
     "comparison: |impl - model| <= 1e-9 * max(1, |model|) (chains of float operations: cumsum, division, interpolation)",
     "hist_nnls with pep_est[0] == 0 (0/0 -> NaN in the implementation) is Err EValue in the model and NaN on the other side",
     "qvalues_from_counts with a best-scoring decoy returns +inf for every PSM (x/0); the model reports PepAllInf",
+    "an exception raised INSIDE a fitting library (np.polyfit on an empty prefix, ...) means there is nothing to "
+    "post-process: such cases are counted (library_fit_failures) and must stay below 15 % per estimator; an exception "
+    "raised by mokapot's own code or at the call of a library function is a disagreement",
 ]
 TRUSTED_EXTRA = [
     "oracles (recorded, contracts checked at run time): triqler.qvality spline (input of qvality.monotonize), "
@@ -42,6 +45,8 @@ PEP_ALGS = ("qvality", "kde_nnls", "hist_nnls")
 Q_ALGS = ("from_counts", "from_peps")
 
 _CACHE = {}
+FIT_FAILURES = {}
+ESTIMATOR_CASES = {}
 STATS = {"contracts_checked": 0, "contract_failures": 0, "oracle_values_recorded": 0}
 
 
@@ -147,6 +152,24 @@ def recording():
             setattr(obj, name, old)
 
 
+def _raised_in(exc):
+    """'library:<file>:<function>' when the innermost frame of the traceback is library code (numpy, scipy,
+    triqler: a fit that failed), 'mokapot:...' / 'call:...' when mokapot itself or the call of a library
+    function raised"""
+    import traceback
+    tb = traceback.extract_tb(exc.__traceback__)
+    if not tb:
+        return "unknown"
+    fr_ = tb[-1]
+    fn = fr_.filename.replace("\\", "/")
+    short = "/".join(fn.split("/")[-2:])
+    if fn == __file__.replace("\\", "/") or fn.endswith("harness/props/c06.py"):
+        return f"call:{fr_.name}"
+    if "/mokapot/" in fn:
+        return f"mokapot:{short}:{fr_.name}"
+    return f"library:{short}:{fr_.name}"
+
+
 def _arrays(c):
     import numpy as np
     sc = np.array(c["scores"], dtype=float)
@@ -178,6 +201,7 @@ def _run(c):
                 raise
             res["err"] = "SystemExit" if isinstance(e, SystemExit) else lib.err_kind(e)
             res["msg"] = f"{type(e).__name__}: {e}"[:200]
+            res["where"] = _raised_in(e)
     res["rec"] = rec
     res["mutated"] = not np.array_equal(sc, sc0)
     _CACHE[key] = res
@@ -280,6 +304,8 @@ def oracles(c, run):
 def _oracles_or_none(c, run):
     if run["rec"] is None:
         return None, "no recording"
+    if run["err"] is not None:
+        return None, "the implementation raised before returning"
     if "orc" not in run:
         try:
             run["orc"] = (oracles(c, run), None)
@@ -390,7 +416,7 @@ def gen(ctx):
             if ctx.thorough:
                 n = rng.choice([50, 64, 100, 150, 250, 400, 700, 1000, 1500, 2000])
             else:
-                n = sizes_quick[k % len(sizes_quick)] if k % 9 else 2000
+                n = sizes_quick[k % len(sizes_quick)] if k % 14 else 2000
             sc, tg = _scores(rng, n, shape)
             sc, tg = _order(rng, sc, tg, order)
             for alg in PEP_ALGS + Q_ALGS:
@@ -503,7 +529,12 @@ def impl(c):
                                                           np.array(c["fp"], dtype=float))]
         return lib.call_impl(f)
     run = _run(c)
+    if len(c["scores"]) == len(c["targets"]):
+        ESTIMATOR_CASES[c["alg"]] = ESTIMATOR_CASES.get(c["alg"], 0) + 1
     if run["err"] is not None:
+        if len(c["scores"]) == len(c["targets"]) and str(run.get("where", "")).startswith("library:"):
+            FIT_FAILURES.setdefault(c["alg"], []).append((len(c["scores"]), run["msg"], run["where"]))
+            return ("fit-failed", run["err"], run["where"])
         return ("err", run["err"])
     if run["mutated"]:
         return ("input-mutated",)
@@ -535,6 +566,8 @@ def same(c, m, i):
         if m[0] != i[0]:
             return False
         return m[1] == i[1] if m[0] == "err" else _close_list(i[1], m[1])
+    if i[0] == "fit-failed":
+        return m == ("no-oracle",)      # the library fit raised: nothing to post-process (counted, bounded in extra_checks)
     if m[0] != i[0]:
         # hist_nnls: 0/0 -> NaN in the implementation, Err EValue in the model
         return (c["alg"] == "hist_nnls" and m == ("err", "ValueError") and i[0] == "ok"
@@ -582,6 +615,8 @@ def oracle(c, i):
     alg = c["alg"]
     call = (f"mokapot.peps.peps_from_scores(scores, targets, {alg!r})" if fn == "peps"
             else f"mokapot.qvalues.qvalues_from_scores(scores, targets, {alg!r})")
+    if i[0] == "fit-failed":
+        return None
     if i[0] == "err":
         run = _run(c)
         return f"{call} raised {run.get('msg', i[1])} on a valid input ({len(c['scores'])} PSMs with targets and decoys)"
@@ -644,6 +679,14 @@ def extra_checks(ctx):
     info = {"oracle_contract_checks": dict(STATS),
             "tolerance": "1e-9 relative/absolute on every value; exact equality for monotonize_simple"}
     fails = []
+    info["library_fit_failures"] = {a: {"count": len(v), "of": ESTIMATOR_CASES.get(a, 0),
+                                        "examples": sorted(set((n, m, w) for n, m, w in v))[:3]}
+                                    for a, v in FIT_FAILURES.items()}
+    for a, v in FIT_FAILURES.items():
+        tot = ESTIMATOR_CASES.get(a, 0)
+        if len(v) > max(2, 0.15 * tot):
+            fails.append({"what": f"{a}: the library fit raised on {len(v)} of {tot} valid inputs "
+                                  f"(e.g. n={v[0][0]}: {v[0][1]} in {v[0][2]})"})
     if STATS["contracts_checked"] == 0:
         fails.append({"what": "no oracle contract was evaluated (recording wrappers saw nothing)"})
     return fails, info
